@@ -11,23 +11,23 @@ theorem convertNewTokenToShares_is_source (tt ts : Dec) (n : Int) :
     Generated.ConvertNewTokenToShares tt ts n = convertNewTokenToShares tt ts n := by
   unfold Generated.ConvertNewTokenToShares convertNewTokenToShares GoSem.isZero GoSem.quo GoSem.decFromInt GoSem.mulInt
   by_cases h1 : ts = 0
-  · simp [h1]; rfl
+  · simp [h1]; try rfl
   · by_cases h2 : tt = 0
-    · simp [h1, h2]; rfl
-    · simp [h1, h2]; rfl
+    · simp [h1, h2]; try rfl
+    · simp [h1, h2]; try rfl
 
 theorem convertNewShareToDecToken_is_source (tt ts s : Dec) :
     Generated.ConvertNewShareToDecToken tt ts s = .ok (convertNewShareToDecToken tt ts s) := by
   unfold Generated.ConvertNewShareToDecToken convertNewShareToDecToken GoSem.isZero GoSem.quo GoSem.mul
   by_cases h1 : ts = 0
-  · simp [h1]; rfl
-  · simp [h1]; rfl
+  · simp [h1]; try rfl
+  · simp [h1]; try rfl
 
 theorem totalTokensWithAsset_is_source (v : ValInfo) (a : Asset) :
     Generated.TotalTokensWithAsset v a = .ok (totalTokensWithAsset v a) := by
   unfold Generated.TotalTokensWithAsset totalTokensWithAsset
   simp only [convertNewShareToDecToken_is_source, GoSem.validatorSharesWithDenom, GoSem.decFromInt]
-  rfl
+  try rfl
 
 theorem getDelegationTokensWithShares_is_source (s : Dec) (v : ValInfo) (a : Asset) :
     Generated.GetDelegationTokensWithShares s v a = delegationTokensWithShares s v a := by
@@ -94,15 +94,19 @@ theorem subtractDecCoinsWithRounding_is_source (d1s d2s : DecCoins) :
 theorem rewardsStarted_is_source (a : Asset) (t : Time) :
     Generated.RewardsStarted a t = .ok (rewardsStarted a t) := by
   unfold Generated.RewardsStarted rewardsStarted
-  show Except.ok (decide (t > a.startTime) || decide (t = a.startTime)) = Except.ok (decide (t ≥ a.startTime))
+  show Except.ok _ = Except.ok (decide (t ≥ a.startTime))
   congr 1
-  by_cases h1 : t > a.startTime
-  · have : t ≥ a.startTime := by unfold Time at *; omega
-    simp [h1, this]
-  · by_cases h2 : t = a.startTime
-    · simp [h2]
-    · have : ¬ t ≥ a.startTime := by unfold Time at *; omega
-      simp [h1, h2, this]
+  -- whichever comparison the source uses (After || Equal, !Before, …): decide it in the three orders
+  rcases Int.lt_trichotomy t a.startTime with h | h | h
+  · have h1 : ¬ t > a.startTime := by unfold Time at *; omega
+    have h2 : ¬ t = a.startTime := by unfold Time at *; omega
+    have h3 : ¬ t ≥ a.startTime := by unfold Time at *; omega
+    simp [h, h1, h2, h3]
+  · subst h; simp
+  · have h1 : ¬ t < a.startTime := by unfold Time at *; omega
+    have h2 : ¬ t = a.startTime := by unfold Time at *; omega
+    have h3 : t ≥ a.startTime := by unfold Time at *; omega
+    simp [h, h1, h2, h3]
 
 theorem getIndexByAlliance_is_source (r : List RewardHistory) (a : Denom) :
     Generated.GetIndexByAlliance r a = .ok (histFilterByAlliance r a) := by
